@@ -22,6 +22,8 @@ Decides (on Doc::render_console, colourless and colour builds):
  K doc writers    see C12 (payload and token lengths stay in step).
  S fence / counter  every test against the code-fence literal is a prefix test; buffer::Skip is a depth counter (usize), not a flag.
  S splitter cuts   see C12.
+ F short form      every paragraph break reaches the `full` test, and on its short-form edge Skip::enable is unconditional; W term gap: the two-blank
+                   top-up between a wide term and its help can follow the ordinary padding whatever that pushed.
 Does not decide: the numeric bound on line length (byte vs char counts)."""
 import re
 from core import *
@@ -32,7 +34,7 @@ from parsers import *
 LEVEL = 'other'
 EXPLANATION = __doc__
 ASSUMPTIONS = ['String::push/push_str/truncate and str::trim_end behave as documented']
-FLOORS = {'W.width': 5, 'O.once': 2, 'C.constants': 5, 'F.full': 3, 'P.width-source': 3, 'S.splitter': 4, 'K.cursor': 2, 'K.skip-pairing': 3}
+FLOORS = {'W.width': 5, 'O.once': 2, 'C.constants': 5, 'F.full': 4, 'P.width-source': 3, 'S.splitter': 4, 'K.cursor': 2, 'K.skip-pairing': 3}
 
 def run(ctx):
     cfgs = ['none', 'dull'] if ctx.tier == 'quick' else ['none', 'dull', 'bright', 'all']
@@ -41,6 +43,7 @@ def run(ctx):
         fs = ctx.facts(cfg)
         ctx.guard(console, ctx, cfg, fs)
         ctx.guard(width_source, ctx, cfg, fs)
+        ctx.guard(term_gap, ctx, cfg, fs)
         ctx.guard(splitter, ctx, cfg, fs)
         import docwalk
         ctx.guard(docwalk.cursor_advance, ctx, cfg, fs, 'K.cursor', r'render_console$|Doc::first_line$')
@@ -239,8 +242,55 @@ def console(ctx, cfg, fs):
                'from the Paragraph arm every way to the next chunk passes the `full` test (a paragraph break that is not seen leaves the short form running into the second paragraph): %s' % ([b.where(x) for x in leak] or 'ok'), where=b.where(par if par is not None else 0), cfg=cfg)
     en = [c for c in b.calls() if c.is_(r'buffer::Skip::enable$')]
     ok2 = len(en) == 1 and len(fsw) == 1 and any(only_via_edge(b, fsw[0].b, t, en[0].bb) for o, t in fsw[0].edges.items())
+    if len(en) == 1 and len(fsw) == 1:
+        # in the short form EVERY paragraph break starts the skipping: nothing else (nesting depth, margins ..) has a say
+        neg = any(r.kind == 'un' for r in fsw[0].roots)
+        t_short = fsw[0].target(True) if neg else fsw[0].target(False)
+        leak2 = sorted(x for x in reachable_edges(b, t_short, avoid=[en[0].bb]) if x in nxt or b.term(x)['k'] == 'return') if t_short is not None else ['?']
+        ctx.ob('F.full', 'render_console:short-form-always-starts-skipping', not leak2,
+               'on the short-form edge of the `full` test every way on passes Skip::enable: %s' % ([b.where(x) for x in leak2 if x != '?'] or 'ok'), where=b.where(en[0].bb), cfg=cfg)
     uses_full = [1 for c in b.calls() for a in c.args for r in provenance(b, a, c.bb, 'term', through=None) if r.kind == 'param' and r.what == 'full']
     ctx.ob('F.full', 'render_console:full-controls-skip-only', ok2 and not uses_full, 'the only effect of `full` is to start skipping after the first paragraph (Skip::enable on one edge of that test): %s' % ok2, where=b.where(), cfg=cfg)
+
+def term_gap(ctx, cfg, fs, rule='W.width'):
+    """an item's help text starts on the line of its term when the term sticks out past the tab stop; what keeps the two apart is the
+    top-up to two blanks made under `pending_margin`.  That top-up must be able to run whichever way the ordinary padding to the margin
+    went: also after a padding of zero or one blank (term ending exactly on, or one column before, the margin) - otherwise the last word
+    of the term and the first word of the help become one word.  Structural part decided: the padding site that depends on
+    `pending_margin` is reachable from the Some edge AND from the None edge of the `margin.checked_sub(char_pos)` test."""
+    b = ctx.look(fs.one(r'impl buffer::Doc>::render_console$'))
+    cs = [c for c in b.calls() if c.is_(r'usize>::checked_sub$')]
+    pads = []
+    for c in b.calls():
+        if not c.is_(r'String::push_str$'): continue
+        rs = provenance(b, c.args[1], c.bb, 'term')
+        if not (rs and all(r.kind == 'const' and isinstance(r.what, str) and r.what.strip(' ') == '' for r in rs)): continue
+        deps = [Switch(b, a_) for (a_, s_) in b.transitive_control_deps(c.bb) if b.term(a_)['k'] == 'switch']
+        if any(sw.kind == 'bool' and any(r.kind in ('local', 'param') and r.what == 'pending_margin' for r in (sw.roots or [])) or
+               (sw.kind == 'bool' and op_place(sw.t['op']) and b.local_names.get(op_place(sw.t['op'])[0]) == 'pending_margin') or
+               (sw.kind == 'bool' and switch_reads_named_local(b, sw) and any(b.local_names.get(l_) == 'pending_margin' for l_ in _read_locals(b, sw))) for sw in deps):
+            pads.append(c)
+    if not cs or not pads:
+        raise Broken('render_console: the margin padding (checked_sub) or the pending_margin top-up was not found (%d/%d)' % (len(cs), len(pads)))
+    bad = []
+    for c in cs:
+        sw = switch_on_call(b, c)
+        if sw is None or sw.kind != 'enum': continue
+        for v in ('Some', 'None'):
+            t = sw.target(v)
+            if t is None or not any(p.bb in reachable_edges(b, t, avoid=[c.bb]) for p in pads):
+                bad.append('not reachable after checked_sub gave %s' % v)
+    ctx.ob(rule, 'render_console:term-gap-top-up-after-any-padding', not bad, 'the two-blank top-up under pending_margin (%d site(s)) can follow the padding to the margin whatever it pushed: %s' % (len(pads), bad or 'ok'), where=pads[0].where(), cfg=cfg)
+
+def _read_locals(b, sw):
+    opp = op_place(sw.t['op'])
+    out = set()
+    if opp is None: return out
+    out.add(opp[0])
+    for (_, _, k, st) in reaching_defs(b, opp[0], sw.b, 'term'):
+        if k == 'assign' and st['rv']['k'] == 'use' and op_place(st['rv']['op']):
+            out.add(op_place(st['rv']['op'])[0])
+    return out
 
 def width_source(ctx, cfg, fs):
     m = ctx.look(fs.one(r'buffer::console::<impl buffer::Doc>::monochrome$'))
